@@ -5,252 +5,114 @@
    every vector length.  The accepted identifiers and the registry keys are the same set.
 
    resolve k          = the term generated from the function DISTANCES[k] of opfython/math/distance.py
-   metric_value m x y = its value over the reals, `@d.avoid_zero_division` included
-   sp_<k>             = the closed form, Spec/MetricSpec.v;  shift v = v + EPSILON entrywise *)
+                        (registry: key -> function name; definitions: function name -> term)
+   metric_value m x y = its value over the reals, `@d.avoid_zero_division` included, extra
+                        parameters at their defaults (the way every model calls `distance_fn(x, y)`)
+   sp_<k>             = the closed form, Spec/MetricSpec.v;  shift v = v + EPSILON entrywise
+   47 identifiers, 48 conjuncts (gaussian: at its default gamma = 1 and for every gamma). *)
 From Coq Require Import Reals String List Permutation.
 From OPF Require Import Spec.MetricSpec Model.MetricIR Gen.Metrics_gen Gen.Registry_gen Model.MetricEval
      Proofs.ClosedForms Proofs.Resolved Proofs.RegistryOk.
 
-Theorem C06_closed_form_additive_symmetric :
-  exists m, resolve "additive_symmetric"%string = Some m /\
-    forall x y : list R, length x = length y -> metric_value m x y = sp_additive_symmetric (shift x) (shift y).
-Proof. exact resolved_additive_symmetric. Qed.
-
-Theorem C06_closed_form_average_euclidean :
-  exists m, resolve "average_euclidean"%string = Some m /\
-    forall x y : list R, length x = length y -> metric_value m x y = sp_average_euclidean x y.
-Proof. exact resolved_average_euclidean. Qed.
-
-Theorem C06_closed_form_bhattacharyya :
-  exists m, resolve "bhattacharyya"%string = Some m /\
-    forall x y : list R, length x = length y -> metric_value m x y = sp_bhattacharyya (shift x) (shift y).
-Proof. exact resolved_bhattacharyya. Qed.
-
-Theorem C06_closed_form_bray_curtis :
-  exists m, resolve "bray_curtis"%string = Some m /\
-    forall x y : list R, length x = length y -> metric_value m x y = sp_bray_curtis (shift x) (shift y).
-Proof. exact resolved_bray_curtis. Qed.
-
-Theorem C06_closed_form_canberra :
-  exists m, resolve "canberra"%string = Some m /\
-    forall x y : list R, length x = length y -> metric_value m x y = sp_canberra (shift x) (shift y).
-Proof. exact resolved_canberra. Qed.
-
-Theorem C06_closed_form_chebyshev :
-  exists m, resolve "chebyshev"%string = Some m /\
-    forall x y : list R, length x = length y -> metric_value m x y = sp_chebyshev x y.
-Proof. exact resolved_chebyshev. Qed.
-
-Theorem C06_closed_form_chi_squared :
-  exists m, resolve "chi_squared"%string = Some m /\
-    forall x y : list R, length x = length y -> metric_value m x y = sp_chi_squared (shift x) (shift y).
-Proof. exact resolved_chi_squared. Qed.
-
-Theorem C06_closed_form_chord :
-  exists m, resolve "chord"%string = Some m /\
-    forall x y : list R, length x = length y -> metric_value m x y = sp_chord (shift x) (shift y).
-Proof. exact resolved_chord. Qed.
-
-Theorem C06_closed_form_clark :
-  exists m, resolve "clark"%string = Some m /\
-    forall x y : list R, length x = length y -> metric_value m x y = sp_clark (shift x) (shift y).
-Proof. exact resolved_clark. Qed.
-
-Theorem C06_closed_form_cosine :
-  exists m, resolve "cosine"%string = Some m /\
-    forall x y : list R, length x = length y -> metric_value m x y = sp_cosine (shift x) (shift y).
-Proof. exact resolved_cosine. Qed.
-
-Theorem C06_closed_form_dice :
-  exists m, resolve "dice"%string = Some m /\
-    forall x y : list R, length x = length y -> metric_value m x y = sp_dice (shift x) (shift y).
-Proof. exact resolved_dice. Qed.
-
-Theorem C06_closed_form_divergence :
-  exists m, resolve "divergence"%string = Some m /\
-    forall x y : list R, length x = length y -> metric_value m x y = sp_divergence (shift x) (shift y).
-Proof. exact resolved_divergence. Qed.
-
-Theorem C06_closed_form_euclidean :
-  exists m, resolve "euclidean"%string = Some m /\
-    forall x y : list R, length x = length y -> metric_value m x y = sp_euclidean x y.
-Proof. exact resolved_euclidean. Qed.
-
-Theorem C06_closed_form_gaussian :
-  exists m, resolve "gaussian"%string = Some m /\
-    forall x y : list R, length x = length y -> metric_value m x y = sp_gaussian 1%R x y.
-Proof. exact resolved_gaussian. Qed.
-
-Theorem C06_closed_form_gaussian_any_gamma :
-  exists m, resolve "gaussian"%string = Some m /\
-    forall (g : R) (x y : list R), length x = length y ->
-      metric_value_with (fun _ => g) m x y = sp_gaussian g x y.
-Proof. exact resolved_gaussian_gamma. Qed.
-
-Theorem C06_closed_form_gower :
-  exists m, resolve "gower"%string = Some m /\
-    forall x y : list R, length x = length y -> metric_value m x y = sp_gower x y.
-Proof. exact resolved_gower. Qed.
-
-Theorem C06_closed_form_hamming :
-  exists m, resolve "hamming"%string = Some m /\
-    forall x y : list R, length x = length y -> metric_value m x y = sp_hamming x y.
-Proof. exact resolved_hamming. Qed.
-
-Theorem C06_closed_form_hassanat :
-  exists m, resolve "hassanat"%string = Some m /\
-    forall x y : list R, length x = length y -> metric_value m x y = sp_hassanat (shift x) (shift y).
-Proof. exact resolved_hassanat. Qed.
-
-Theorem C06_closed_form_hellinger :
-  exists m, resolve "hellinger"%string = Some m /\
-    forall x y : list R, length x = length y -> metric_value m x y = sp_hellinger x y.
-Proof. exact resolved_hellinger. Qed.
-
-Theorem C06_closed_form_jaccard :
-  exists m, resolve "jaccard"%string = Some m /\
-    forall x y : list R, length x = length y -> metric_value m x y = sp_jaccard (shift x) (shift y).
-Proof. exact resolved_jaccard. Qed.
-
-Theorem C06_closed_form_jeffreys :
-  exists m, resolve "jeffreys"%string = Some m /\
-    forall x y : list R, length x = length y -> metric_value m x y = sp_jeffreys (shift x) (shift y).
-Proof. exact resolved_jeffreys. Qed.
-
-Theorem C06_closed_form_jensen :
-  exists m, resolve "jensen"%string = Some m /\
-    forall x y : list R, length x = length y -> metric_value m x y = sp_jensen (shift x) (shift y).
-Proof. exact resolved_jensen. Qed.
-
-Theorem C06_closed_form_jensen_shannon :
-  exists m, resolve "jensen_shannon"%string = Some m /\
-    forall x y : list R, length x = length y -> metric_value m x y = sp_jensen_shannon (shift x) (shift y).
-Proof. exact resolved_jensen_shannon. Qed.
-
-Theorem C06_closed_form_k_divergence :
-  exists m, resolve "k_divergence"%string = Some m /\
-    forall x y : list R, length x = length y -> metric_value m x y = sp_k_divergence (shift x) (shift y).
-Proof. exact resolved_k_divergence. Qed.
-
-Theorem C06_closed_form_kulczynski :
-  exists m, resolve "kulczynski"%string = Some m /\
-    forall x y : list R, length x = length y -> metric_value m x y = sp_kulczynski (shift x) (shift y).
-Proof. exact resolved_kulczynski. Qed.
-
-Theorem C06_closed_form_kullback_leibler :
-  exists m, resolve "kullback_leibler"%string = Some m /\
-    forall x y : list R, length x = length y -> metric_value m x y = sp_kullback_leibler (shift x) (shift y).
-Proof. exact resolved_kullback_leibler. Qed.
-
-Theorem C06_closed_form_log_euclidean :
-  exists m, resolve "log_euclidean"%string = Some m /\
-    forall x y : list R, length x = length y -> metric_value m x y = sp_log_euclidean x y.
-Proof. exact resolved_log_euclidean. Qed.
-
-Theorem C06_closed_form_log_squared_euclidean :
-  exists m, resolve "log_squared_euclidean"%string = Some m /\
-    forall x y : list R, length x = length y -> metric_value m x y = sp_log_squared_euclidean x y.
-Proof. exact resolved_log_squared_euclidean. Qed.
-
-Theorem C06_closed_form_lorentzian :
-  exists m, resolve "lorentzian"%string = Some m /\
-    forall x y : list R, length x = length y -> metric_value m x y = sp_lorentzian x y.
-Proof. exact resolved_lorentzian. Qed.
-
-Theorem C06_closed_form_manhattan :
-  exists m, resolve "manhattan"%string = Some m /\
-    forall x y : list R, length x = length y -> metric_value m x y = sp_manhattan x y.
-Proof. exact resolved_manhattan. Qed.
-
-Theorem C06_closed_form_matusita :
-  exists m, resolve "matusita"%string = Some m /\
-    forall x y : list R, length x = length y -> metric_value m x y = sp_matusita x y.
-Proof. exact resolved_matusita. Qed.
-
-Theorem C06_closed_form_max_symmetric :
-  exists m, resolve "max_symmetric"%string = Some m /\
-    forall x y : list R, length x = length y -> metric_value m x y = sp_max_symmetric (shift x) (shift y).
-Proof. exact resolved_max_symmetric. Qed.
-
-Theorem C06_closed_form_mean_censored_euclidean :
-  exists m, resolve "mean_censored_euclidean"%string = Some m /\
-    forall x y : list R, length x = length y -> metric_value m x y = sp_mean_censored_euclidean (shift x) (shift y).
-Proof. exact resolved_mean_censored_euclidean. Qed.
-
-Theorem C06_closed_form_min_symmetric :
-  exists m, resolve "min_symmetric"%string = Some m /\
-    forall x y : list R, length x = length y -> metric_value m x y = sp_min_symmetric (shift x) (shift y).
-Proof. exact resolved_min_symmetric. Qed.
-
-Theorem C06_closed_form_neyman :
-  exists m, resolve "neyman"%string = Some m /\
-    forall x y : list R, length x = length y -> metric_value m x y = sp_neyman (shift x) (shift y).
-Proof. exact resolved_neyman. Qed.
-
-Theorem C06_closed_form_non_intersection :
-  exists m, resolve "non_intersection"%string = Some m /\
-    forall x y : list R, length x = length y -> metric_value m x y = sp_non_intersection x y.
-Proof. exact resolved_non_intersection. Qed.
-
-Theorem C06_closed_form_pearson :
-  exists m, resolve "pearson"%string = Some m /\
-    forall x y : list R, length x = length y -> metric_value m x y = sp_pearson (shift x) (shift y).
-Proof. exact resolved_pearson. Qed.
-
-Theorem C06_closed_form_sangvi :
-  exists m, resolve "sangvi"%string = Some m /\
-    forall x y : list R, length x = length y -> metric_value m x y = sp_sangvi (shift x) (shift y).
-Proof. exact resolved_sangvi. Qed.
-
-Theorem C06_closed_form_soergel :
-  exists m, resolve "soergel"%string = Some m /\
-    forall x y : list R, length x = length y -> metric_value m x y = sp_soergel (shift x) (shift y).
-Proof. exact resolved_soergel. Qed.
-
-Theorem C06_closed_form_squared :
-  exists m, resolve "squared"%string = Some m /\
-    forall x y : list R, length x = length y -> metric_value m x y = sp_squared (shift x) (shift y).
-Proof. exact resolved_squared. Qed.
-
-Theorem C06_closed_form_squared_chord :
-  exists m, resolve "squared_chord"%string = Some m /\
-    forall x y : list R, length x = length y -> metric_value m x y = sp_squared_chord x y.
-Proof. exact resolved_squared_chord. Qed.
-
-Theorem C06_closed_form_squared_euclidean :
-  exists m, resolve "squared_euclidean"%string = Some m /\
-    forall x y : list R, length x = length y -> metric_value m x y = sp_squared_euclidean x y.
-Proof. exact resolved_squared_euclidean. Qed.
-
-Theorem C06_closed_form_statistic :
-  exists m, resolve "statistic"%string = Some m /\
-    forall x y : list R, length x = length y -> metric_value m x y = sp_statistic (shift x) (shift y).
-Proof. exact resolved_statistic. Qed.
-
-Theorem C06_closed_form_topsoe :
-  exists m, resolve "topsoe"%string = Some m /\
-    forall x y : list R, length x = length y -> metric_value m x y = sp_topsoe (shift x) (shift y).
-Proof. exact resolved_topsoe. Qed.
-
-Theorem C06_closed_form_vicis_symmetric1 :
-  exists m, resolve "vicis_symmetric1"%string = Some m /\
-    forall x y : list R, length x = length y -> metric_value m x y = sp_vicis_symmetric1 (shift x) (shift y).
-Proof. exact resolved_vicis_symmetric1. Qed.
-
-Theorem C06_closed_form_vicis_symmetric2 :
-  exists m, resolve "vicis_symmetric2"%string = Some m /\
-    forall x y : list R, length x = length y -> metric_value m x y = sp_vicis_symmetric2 (shift x) (shift y).
-Proof. exact resolved_vicis_symmetric2. Qed.
-
-Theorem C06_closed_form_vicis_symmetric3 :
-  exists m, resolve "vicis_symmetric3"%string = Some m /\
-    forall x y : list R, length x = length y -> metric_value m x y = sp_vicis_symmetric3 (shift x) (shift y).
-Proof. exact resolved_vicis_symmetric3. Qed.
-
-Theorem C06_closed_form_vicis_wave_hedges :
-  exists m, resolve "vicis_wave_hedges"%string = Some m /\
-    forall x y : list R, length x = length y -> metric_value m x y = sp_vicis_wave_hedges (shift x) (shift y).
-Proof. exact resolved_vicis_wave_hedges. Qed.
+Theorem C06_closed_forms :
+  ((exists m, resolve "additive_symmetric"%string = Some m /\
+     forall x y : list R, length x = length y -> metric_value m x y = sp_additive_symmetric (shift x) (shift y))
+  /\ (exists m, resolve "average_euclidean"%string = Some m /\
+     forall x y : list R, length x = length y -> metric_value m x y = sp_average_euclidean x y)
+  /\ (exists m, resolve "bhattacharyya"%string = Some m /\
+     forall x y : list R, length x = length y -> metric_value m x y = sp_bhattacharyya (shift x) (shift y))
+  /\ (exists m, resolve "bray_curtis"%string = Some m /\
+     forall x y : list R, length x = length y -> metric_value m x y = sp_bray_curtis (shift x) (shift y))
+  /\ (exists m, resolve "canberra"%string = Some m /\
+     forall x y : list R, length x = length y -> metric_value m x y = sp_canberra (shift x) (shift y))
+  /\ (exists m, resolve "chebyshev"%string = Some m /\
+     forall x y : list R, length x = length y -> metric_value m x y = sp_chebyshev x y)
+  /\ (exists m, resolve "chi_squared"%string = Some m /\
+     forall x y : list R, length x = length y -> metric_value m x y = sp_chi_squared (shift x) (shift y))
+  /\ (exists m, resolve "chord"%string = Some m /\
+     forall x y : list R, length x = length y -> metric_value m x y = sp_chord (shift x) (shift y))
+  /\ (exists m, resolve "clark"%string = Some m /\
+     forall x y : list R, length x = length y -> metric_value m x y = sp_clark (shift x) (shift y))
+  /\ (exists m, resolve "cosine"%string = Some m /\
+     forall x y : list R, length x = length y -> metric_value m x y = sp_cosine (shift x) (shift y))
+  /\ (exists m, resolve "dice"%string = Some m /\
+     forall x y : list R, length x = length y -> metric_value m x y = sp_dice (shift x) (shift y))
+  /\ (exists m, resolve "divergence"%string = Some m /\
+     forall x y : list R, length x = length y -> metric_value m x y = sp_divergence (shift x) (shift y))
+  /\ (exists m, resolve "euclidean"%string = Some m /\
+     forall x y : list R, length x = length y -> metric_value m x y = sp_euclidean x y)
+  /\ (exists m, resolve "gaussian"%string = Some m /\
+     forall x y : list R, length x = length y -> metric_value m x y = sp_gaussian 1 x y)
+  /\ (exists m, resolve "gaussian"%string = Some m /\
+     forall (g : R) (x y : list R), length x = length y ->
+       metric_value_with (fun _ => g) m x y = sp_gaussian g x y)
+  /\ (exists m, resolve "gower"%string = Some m /\
+     forall x y : list R, length x = length y -> metric_value m x y = sp_gower x y)
+  /\ (exists m, resolve "hamming"%string = Some m /\
+     forall x y : list R, length x = length y -> metric_value m x y = sp_hamming x y)
+  /\ (exists m, resolve "hassanat"%string = Some m /\
+     forall x y : list R, length x = length y -> metric_value m x y = sp_hassanat (shift x) (shift y))
+  /\ (exists m, resolve "hellinger"%string = Some m /\
+     forall x y : list R, length x = length y -> metric_value m x y = sp_hellinger x y)
+  /\ (exists m, resolve "jaccard"%string = Some m /\
+     forall x y : list R, length x = length y -> metric_value m x y = sp_jaccard (shift x) (shift y))
+  /\ (exists m, resolve "jeffreys"%string = Some m /\
+     forall x y : list R, length x = length y -> metric_value m x y = sp_jeffreys (shift x) (shift y))
+  /\ (exists m, resolve "jensen"%string = Some m /\
+     forall x y : list R, length x = length y -> metric_value m x y = sp_jensen (shift x) (shift y))
+  /\ (exists m, resolve "jensen_shannon"%string = Some m /\
+     forall x y : list R, length x = length y -> metric_value m x y = sp_jensen_shannon (shift x) (shift y))
+  /\ (exists m, resolve "k_divergence"%string = Some m /\
+     forall x y : list R, length x = length y -> metric_value m x y = sp_k_divergence (shift x) (shift y))
+  /\ (exists m, resolve "kulczynski"%string = Some m /\
+     forall x y : list R, length x = length y -> metric_value m x y = sp_kulczynski (shift x) (shift y))
+  /\ (exists m, resolve "kullback_leibler"%string = Some m /\
+     forall x y : list R, length x = length y -> metric_value m x y = sp_kullback_leibler (shift x) (shift y))
+  /\ (exists m, resolve "log_euclidean"%string = Some m /\
+     forall x y : list R, length x = length y -> metric_value m x y = sp_log_euclidean x y)
+  /\ (exists m, resolve "log_squared_euclidean"%string = Some m /\
+     forall x y : list R, length x = length y -> metric_value m x y = sp_log_squared_euclidean x y)
+  /\ (exists m, resolve "lorentzian"%string = Some m /\
+     forall x y : list R, length x = length y -> metric_value m x y = sp_lorentzian x y)
+  /\ (exists m, resolve "manhattan"%string = Some m /\
+     forall x y : list R, length x = length y -> metric_value m x y = sp_manhattan x y)
+  /\ (exists m, resolve "matusita"%string = Some m /\
+     forall x y : list R, length x = length y -> metric_value m x y = sp_matusita x y)
+  /\ (exists m, resolve "max_symmetric"%string = Some m /\
+     forall x y : list R, length x = length y -> metric_value m x y = sp_max_symmetric (shift x) (shift y))
+  /\ (exists m, resolve "mean_censored_euclidean"%string = Some m /\
+     forall x y : list R, length x = length y -> metric_value m x y = sp_mean_censored_euclidean (shift x) (shift y))
+  /\ (exists m, resolve "min_symmetric"%string = Some m /\
+     forall x y : list R, length x = length y -> metric_value m x y = sp_min_symmetric (shift x) (shift y))
+  /\ (exists m, resolve "neyman"%string = Some m /\
+     forall x y : list R, length x = length y -> metric_value m x y = sp_neyman (shift x) (shift y))
+  /\ (exists m, resolve "non_intersection"%string = Some m /\
+     forall x y : list R, length x = length y -> metric_value m x y = sp_non_intersection x y)
+  /\ (exists m, resolve "pearson"%string = Some m /\
+     forall x y : list R, length x = length y -> metric_value m x y = sp_pearson (shift x) (shift y))
+  /\ (exists m, resolve "sangvi"%string = Some m /\
+     forall x y : list R, length x = length y -> metric_value m x y = sp_sangvi (shift x) (shift y))
+  /\ (exists m, resolve "soergel"%string = Some m /\
+     forall x y : list R, length x = length y -> metric_value m x y = sp_soergel (shift x) (shift y))
+  /\ (exists m, resolve "squared"%string = Some m /\
+     forall x y : list R, length x = length y -> metric_value m x y = sp_squared (shift x) (shift y))
+  /\ (exists m, resolve "squared_chord"%string = Some m /\
+     forall x y : list R, length x = length y -> metric_value m x y = sp_squared_chord x y)
+  /\ (exists m, resolve "squared_euclidean"%string = Some m /\
+     forall x y : list R, length x = length y -> metric_value m x y = sp_squared_euclidean x y)
+  /\ (exists m, resolve "statistic"%string = Some m /\
+     forall x y : list R, length x = length y -> metric_value m x y = sp_statistic (shift x) (shift y))
+  /\ (exists m, resolve "topsoe"%string = Some m /\
+     forall x y : list R, length x = length y -> metric_value m x y = sp_topsoe (shift x) (shift y))
+  /\ (exists m, resolve "vicis_symmetric1"%string = Some m /\
+     forall x y : list R, length x = length y -> metric_value m x y = sp_vicis_symmetric1 (shift x) (shift y))
+  /\ (exists m, resolve "vicis_symmetric2"%string = Some m /\
+     forall x y : list R, length x = length y -> metric_value m x y = sp_vicis_symmetric2 (shift x) (shift y))
+  /\ (exists m, resolve "vicis_symmetric3"%string = Some m /\
+     forall x y : list R, length x = length y -> metric_value m x y = sp_vicis_symmetric3 (shift x) (shift y))
+  /\ (exists m, resolve "vicis_wave_hedges"%string = Some m /\
+     forall x y : list R, length x = length y -> metric_value m x y = sp_vicis_wave_hedges (shift x) (shift y)))%R.
+Proof. exact closed_forms_all. Qed.
 
 Theorem C06_registry_eq_whitelist :
   Permutation (map fst registry) whitelist
